@@ -112,17 +112,29 @@ package responseassembler
 //@   modifies nothing
 //@ func blockOperation.build
 //@   lenient
-//@   requires builder != nil && builder.Builder != nil && builder.Builder.outgoingBlocks != nil && bo.link != nil && dyntype(bo.link) == typetag("cidlink.Link")
+//@   requires builder != nil && builder.Builder != nil && builder.Builder.outgoingBlocks != nil && builder.Builder.outgoingResponses != nil && bo.link != nil && dyntype(bo.link) == typetag("cidlink.Link")
 //@   modifies builder.Builder.blkSize, alloc, allmaps(builder.Builder.outgoingBlocks), allmaps(builder.Builder.outgoingResponses), allmaps(builder.blockData)
 //@   ensures builder.Builder.blkSize == old(builder.Builder.blkSize) + ite(bo.sendBlock, len(bo.data), 0)
+//@   -- C03: exactly one metadata entry for this request, after those already there: the operation's link, marked
+//@   -- missing exactly when there are no bytes; the block itself goes into the message exactly when it is to be sent
+//@   ensures bo.requestID in builder.Builder.outgoingResponses && len(builder.Builder.outgoingResponses[bo.requestID]) == old(metaLen(builder.Builder, bo.requestID)) + 1
+//@   ensures builder.Builder.outgoingResponses[bo.requestID][old(metaLen(builder.Builder, bo.requestID))].Link == cast(bo.link, "cidlink.Link").Cid
+//@   ensures builder.Builder.outgoingResponses[bo.requestID][old(metaLen(builder.Builder, bo.requestID))].Action == ite(len(bo.data) == 0, graphsync.LinkActionMissing, graphsync.LinkActionPresent)
+//@   ensures forall j int :: 0 <= j && j < old(metaLen(builder.Builder, bo.requestID)) ==> builder.Builder.outgoingResponses[bo.requestID][j] == old(builder.Builder.outgoingResponses[bo.requestID][j])
+//@   ensures forall r graphsync.RequestID :: r != bo.requestID ==> (r in builder.Builder.outgoingResponses) == old(r in builder.Builder.outgoingResponses) && builder.Builder.outgoingResponses[r] == old(builder.Builder.outgoingResponses[r])
+//@   ensures !bo.sendBlock ==> (forall c cid.Cid :: (c in builder.Builder.outgoingBlocks) == old(c in builder.Builder.outgoingBlocks))
+//@   ensures bo.sendBlock ==> cast(bo.link, "cidlink.Link").Cid in builder.Builder.outgoingBlocks && blkData(builder.Builder.outgoingBlocks[cast(bo.link, "cidlink.Link").Cid]) == bo.data
 //@ func statusOperation.size
 //@   modifies nothing
 //@   ensures result == 0
 //@ func statusOperation.build
 //@   lenient
-//@   safety off
+//@   requires builder != nil && builder.Builder != nil && builder.Builder.completedResponses != nil && builder.Builder.outgoingResponses != nil
 //@   modifies alloc, allmaps(builder.Builder.completedResponses), allmaps(builder.Builder.outgoingResponses)
 //@   ensures builder.Builder.blkSize == old(builder.Builder.blkSize)
+//@   -- C03: the status becomes the request's status in the message under construction; its metadata is untouched
+//@   ensures fo.requestID in builder.Builder.completedResponses && builder.Builder.completedResponses[fo.requestID] == fo.status && fo.requestID in builder.Builder.outgoingResponses
+//@   ensures metaLen(builder.Builder, fo.requestID) == old(metaLen(builder.Builder, fo.requestID))
 //@ -- extension data is not counted as block bytes, so it must not be reserved either
 //@ func extensionOperation.size
 //@   lenient
